@@ -161,7 +161,25 @@ func newRuleEnv(seed int64) *ruleEnv {
 	e.dir = filepath.Join(tmp, "adir")
 	os.WriteFile(e.file, []byte("x"), 0o600)
 	os.Mkdir(e.dir, 0o700)
+	// names whose last component is a symbolic link: a directory or a file all the same (the kind is found by stat)
+	os.Symlink("adir", filepath.Join(tmp, "dirlink"))
+	os.Symlink(e.file, filepath.Join(tmp, "filelink"))
 	return e
+}
+
+// aDir names the scratch directory, now and then through a symbolic link; aFile the scratch file likewise.
+func (e *ruleEnv) aDir() string {
+	if e.rng.Intn(3) == 0 {
+		return filepath.Join(e.tmp, "dirlink")
+	}
+	return e.dir
+}
+
+func (e *ruleEnv) aFile() string {
+	if e.rng.Intn(4) == 0 {
+		return filepath.Join(e.tmp, "filelink")
+	}
+	return e.file
 }
 
 func (e *ruleEnv) close() { os.RemoveAll(e.tmp) }
@@ -358,9 +376,9 @@ func (e *ruleEnv) filterFor(field, op, vclass string) (arg string, it astItem, i
 		return mk("2", numItem(field, op, 2))
 	case "path", "dir":
 		// a name that agrees with the filesystem: path= a non-directory, dir= a directory
-		base := e.file
+		base := e.aFile()
 		if field == "dir" {
-			base = e.dir
+			base = e.aDir()
 		}
 		switch vclass {
 		case "short":
@@ -615,9 +633,9 @@ func (e *ruleEnv) instantiate(c map[string]interface{}) []*ruleText {
 	case "watch":
 		rt := &ruleText{ast: newAst(), c07: true, cls: "watch"}
 		rt.ast.Kind, rt.ast.WType = "watch", str("wtype")
-		p := e.file
+		p := e.aFile()
 		if rt.ast.WType == "dir" {
-			p = e.dir
+			p = e.aDir()
 		} else if r.Intn(2) == 0 {
 			p = filepath.Join(e.tmp, e.word(6+r.Intn(20), false))
 			if r.Intn(3) == 0 {
@@ -760,10 +778,10 @@ func (e *ruleEnv) randomRule() *ruleText {
 	rt := &ruleText{ast: newAst(), c07: true, cls: "random"}
 	if r.Intn(8) == 0 {
 		rt.ast.Kind, rt.cls = "watch", "random-watch"
-		p := e.file
+		p := e.aFile()
 		rt.ast.WType = "path"
 		if r.Intn(2) == 0 {
-			p, rt.ast.WType = e.dir, "dir"
+			p, rt.ast.WType = e.aDir(), "dir"
 		}
 		rt.ast.WPath = bytesOfS(p)
 		rt.args = []string{"-w", p}
